@@ -663,6 +663,7 @@ pub fn generate(rng: &mut Rng, tier: Tier, frames: bool) -> Scn {
         sub_delay: rng.range(1, 10) as u16,
         init_ccr: if rng.chance(1, 2) { Some(rng.u8() & 0x7f) } else { Some(0x80 | rng.u8()) },
         stack_off: if rng.chance(1, 2) { 0 } else { 4 * rng.below(64) as u16 },
+        exit_style: if rng.chance(1, 2) { 0 } else { rng.below(5) as u8 },
     };
     let est = estimate_iters(&guest);
     // event schedule
@@ -713,7 +714,7 @@ pub fn generate(rng: &mut Rng, tier: Tier, frames: bool) -> Scn {
         .sum::<u64>()
         * guest.handlers.iter().map(|h| handler_cost(&h.kind)).max().unwrap_or(2)
         * 2;
-    let cfg = SysCfg { wait_start: false, clock: gen_clock_model(rng), clock_seed: rng.next_u64(), step_cap: (est + handler_budget) * 6 + 20_000 + if timer_irqs { 200_000 } else { 0 }, print_msgs: rng.chance(1, 16) };
+    let cfg = SysCfg { wait_start: false, clock: gen_clock_model(rng), clock_seed: rng.next_u64(), step_cap: (est + handler_budget) * 6 + 20_000 + if timer_irqs { 200_000 } else { 0 }, print_msgs: rng.chance(1, 16), print_opcode: false };
     Scn { guest, events, cfg, timer_irqs }
 }
 
